@@ -301,3 +301,110 @@ func firstUse(c *run.Ctx) run.Result {
 	res.Sample = map[string]any{"initial_graph": clip(h.init, 700), "sparse_instances_first": sparseFirst, "kinds": strings.Join(names, ",")}
 	return res
 }
+
+// panicScenario: re-wire, then a read that panics inside Process() and is recovered,
+// then the repair, with the versions steered so that the new dependency ends up at
+// exactly the version the node remembers of the old one.
+func (h *hist) panicScenario() bool {
+	r, m := h.r, h.m
+	var ints []int
+	for k, p := range m.params {
+		if p.t == tI {
+			ints = append(ints, k)
+		}
+	}
+	var cands []int
+	for i := range m.nodes {
+		if m.nodes[i].kind == kDiv {
+			cands = append(cands, i)
+		}
+	}
+	if len(ints) < 2 || len(cands) == 0 {
+		return false
+	}
+	x := cands[r.Intn(len(cands))]
+	n := &m.nodes[x]
+	top := x
+	var above []int
+	for j := x + 1; j < len(m.nodes); j++ {
+		if m.closure(j)[x] {
+			above = append(above, j)
+		}
+	}
+	if len(above) > 0 && r.Intn(2) == 0 {
+		top = above[r.Intn(len(above))]
+	}
+	// B directly on an int source P that does not read 0
+	if n.named[1] == nil || !n.named[1].param {
+		if !h.setNamed(x, 1, &ref{param: true, idx: ints[r.Intn(len(ints))]}) {
+			return false
+		}
+	}
+	if h.dead {
+		return true
+	}
+	pOld := n.named[1].idx
+	if m.params[pOld].i == 0 {
+		h.updateParamOpts(pOld, false, -1, 1)
+	}
+	var others []int
+	for _, k := range ints {
+		if k != pOld {
+			others = append(others, k)
+		}
+	}
+	q := others[r.Intn(len(others))]
+	if m.params[q].i == 0 {
+		h.updateParamOpts(q, false, -1, 1) // nothing else may be at zero meanwhile
+	}
+	// steer: version(Q) + 2 == version(P) at the moment Div remembers P
+	for try := 0; try < 8 && !h.dead; try++ {
+		d := h.lp[pOld].node.Version() - h.lp[q].node.Version()
+		if d == 2 {
+			break
+		}
+		if d < 2 {
+			h.updateParamOpts(pOld, false, -1, 1)
+		} else {
+			h.updateParamOpts(q, false, -1, 1)
+		}
+	}
+	if h.dead {
+		return true
+	}
+	if m.panics()[top] {
+		return true // some other Div below is at zero: not this sequence
+	}
+	h.read(top) // Div executes and remembers the version of P
+	if h.dead || h.lastRecovered {
+		return true
+	}
+	remembered := h.lp[pOld].node.Version()
+	h.updateParamOpts(q, false, -1, 2) // Q := 0
+	if h.dead || !h.setNamed(x, 1, &ref{param: true, idx: q}) || h.dead {
+		return true
+	}
+	h.read(top) // panics inside Div.Process(), recovered
+	if h.dead {
+		return true
+	}
+	recovered := h.lastRecovered
+	if r.Intn(3) == 0 {
+		h.read(top) // and again
+	}
+	h.updateParamOpts(q, false, -1, 1) // the repair
+	if h.dead {
+		return true
+	}
+	if recovered {
+		h.res.Count("rewire_then_panic_then_repair_sequences", 1)
+		if h.lp[q].node.Version() == remembered {
+			h.res.Count("version_coincidences_after_rewire", 1)
+		}
+	}
+	h.read(top)
+	if !h.dead && top != x {
+		h.read(x)
+	}
+	return true
+}
